@@ -13,7 +13,14 @@ import (
 // Rng is splitmix64; every random choice of a harness derives from one state.
 type Rng struct{ s uint64 }
 
-func NewRng(seed uint64) *Rng { return &Rng{s: seed*0x9E3779B97F4A7C15 + 0x1234567} }
+func NewRng(seed uint64) *Rng {
+	// scramble the seed so that consecutive seeds give unrelated streams
+	z := seed + 0x632BE59BD9B4E019
+	z = (z ^ (z >> 30)) * 0xBF58476D1CE4E5B9
+	z = (z ^ (z >> 27)) * 0x94D049BB133111EB
+	z = z ^ (z >> 31)
+	return &Rng{s: z}
+}
 
 func (r *Rng) Next() uint64 {
 	r.s += 0x9E3779B97F4A7C15
